@@ -10,7 +10,7 @@ from .common import Ctx
 from .tlc import TLCError
 
 PROPS = {
-    "C07": "evolvent", "C08": "evolvent", "C09": "evolvent", "C17": "c17", "C02": "c02", "C03": "solverprops", "C04": "solverprops", "C05": "solverprops", "C06": "solverprops", "C20": "solverprops", "C16": "c16", "C11": "c11", "C12": "c12", "C13": "c13", "C19": "c19", "C15": "c15", "C18": "c18", "C14": "c14", "C10": "c10",
+    "C07": "evolvent", "C08": "evolvent", "C09": "evolvent", "C17": "c17", "C02": "c02", "C03": "solverprops", "C04": "solverprops", "C05": "solverprops", "C06": "solverprops", "C20": "solverprops", "C16": "c16", "C11": "c11", "C12": "c12", "C13": "c13", "C19": "c19", "C15": "c15", "C18": "c18", "C14": "c14", "C10": "c10", "C01": "c01",
 }
 
 
